@@ -1,15 +1,24 @@
 #!/venv/bin/python
-"""tools/mkmeta.py [matrix.jsonl] : (re)writes seeded/<id>/meta.json and seeded/MATRIX.md from notes.md and a matrix run."""
+"""tools/mkmeta.py [results.jsonl ...] : (re)writes seeded/<id>/meta.json and seeded/MATRIX.md from notes.md and one or more result files
+(tools/matrix.sh: every change x all 20 quick checks; a "diagonal" run: every change x the quick check of its own property).  For a
+change that appears in several files the checks are united, later files winning."""
 import glob, json, os, re, sys
 ROOT = os.path.dirname(os.path.dirname(os.path.abspath(__file__)))
 matrix = {}
-if len(sys.argv) > 1 and os.path.exists(sys.argv[1]):
-    for l in open(sys.argv[1]):
+for fn in sys.argv[1:]:
+    if not os.path.exists(fn):
+        continue
+    for l in open(fn):
         try:
             r = json.loads(l)
         except Exception:
             continue
-        matrix[os.path.basename(r["dir"])] = r
+        sid_ = os.path.basename(r["dir"])
+        if re.match(r"^m\d+$", sid_):  # evaluated from a delivery directory .../Cxx/mN
+            sid_ = os.path.basename(os.path.dirname(r["dir"])) + "-" + sid_
+        if sid_ in matrix and "checks" in r:
+            r["checks"] = dict(matrix[sid_].get("checks", {}), **r["checks"])
+        matrix[sid_] = r
 rows = []
 overrides = json.load(open(os.path.join(ROOT, "seeded", "overrides.json"))) if os.path.exists(os.path.join(ROOT, "seeded", "overrides.json")) else {}
 for d in sorted(glob.glob(os.path.join(ROOT, "seeded", "C*-m*"))):
@@ -20,7 +29,7 @@ for d in sorted(glob.glob(os.path.join(ROOT, "seeded", "C*-m*"))):
     title = re.sub(r"^#+\s*", "", lines[0]) if lines else sid
     needs = " ".join(lines[1:])[:1400]
     files = sorted(set(re.findall(r"^\+\+\+ b/(\S+)", open(os.path.join(d, "patch.diff")).read(), flags=re.M)))
-    meta = {"id": sid, "property": prop, "origin": "independent sub-agent, round %d (given only the property record and a scratch worktree)" % ((int(sid[-1]) + 1) // 2),
+    meta = {"id": sid, "property": prop, "origin": "independent sub-agent, round %d (given only the property record and a scratch worktree)" % ((int(sid.split("-m")[1]) + 1) // 2),
             "title": title, "files_changed": files, "needs_to_manifest": needs,
             "confirmed": "repository tests: 367 passed with the change; demo.py exits 1 with the change and 0 without (tools/eval_seeded.py)"}
     meta.update(overrides.get(sid, {}))
@@ -34,15 +43,15 @@ for d in sorted(glob.glob(os.path.join(ROOT, "seeded", "C*-m*"))):
         meta["inconclusive_quick"] = sorted(p for p, c in r.get("checks", {}).items() if c["rc"] == 2)
         own = r.get("checks", {}).get(prop, {})
         meta["own_property_first_violation"] = own.get("first", "")[:300]
-        rows.append((sid, prop, meta["caught_by_quick"], meta["inconclusive_quick"], title))
+        rows.append((sid, prop, meta["caught_by_quick"], meta["inconclusive_quick"], title, len(meta["quick_checks_run"])))
     json.dump(meta, open(os.path.join(d, "meta.json"), "w"), indent=1)
 if rows:
     with open(os.path.join(ROOT, "seeded", "MATRIX.md"), "w") as fd:
         fd.write("# Seeded changes x quick checks\n\nEach row: a seeded change (kept under seeded/<id>/), the quick checks that reported a VIOLATION with the change applied "
-                 "(all 20 quick checks were run for every change on a scratch clone of the repository), and whether the check of the targeted property is among them.\n\n")
-        fd.write("| change | targets | caught by (quick tier) | own property | what it is |\n|---|---|---|---|---|\n")
-        for sid, prop, caught, inc, title in rows:
-            fd.write("| %s | %s | %s | %s | %s |\n" % (sid, prop, " ".join(caught) or "-", "yes" if prop in caught else ("n/a: " + overrides[sid]["status"] if sid in overrides else "NO"), title[:110].replace("|", "/")))
+                 "(on a scratch clone of the repository; column 'run' says how many of the 20 quick checks were run for that change - 20 = the full row, 1 = only the check of the targeted property), and whether the check of the targeted property is among them.\n\n")
+        fd.write("| change | targets | run | caught by (quick tier) | own property | what it is |\n|---|---|---|---|---|---|\n")
+        for sid, prop, caught, inc, title, nrun in rows:
+            fd.write("| %s | %s | %d | %s | %s | %s |\n" % (sid, prop, nrun, " ".join(caught) or "-", "yes" if prop in caught else ("n/a: " + overrides[sid]["status"] if sid in overrides else "NO"), title[:110].replace("|", "/")))
         live = [r for r in rows if r[0] not in overrides]
         own = sum(1 for r in live if r[1] in r[2])
         anyc = sum(1 for r in live if r[2])
